@@ -3,6 +3,7 @@ package main
 // Locations (lvalues), heap keys, reads and writes.
 
 import (
+	"sort"
 	"fmt"
 	"go/ast"
 	"go/types"
@@ -116,6 +117,31 @@ func (fx *Fx) exprText(n ast.Node) string {
 		return "?"
 	}
 	t := string(src[pos.Offset:end.Offset])
+	if inv := fx.recordedNames(); len(inv) > 0 {
+		// obligation names carry expression text: a renamed variable keeps the name the contracts, the known findings
+		// and the unclaimed list know it under
+		type sub struct {
+			off, n int
+			to     string
+		}
+		var subs []sub
+		ast.Inspect(n, func(x ast.Node) bool {
+			if id, ok := x.(*ast.Ident); ok {
+				if o, ok := inv[id.Name]; ok {
+					if _, isVar := fx.info.ObjectOf(id).(*types.Var); isVar {
+						subs = append(subs, sub{fx.w.Fset.Position(id.Pos()).Offset - pos.Offset, len(id.Name), o})
+					}
+				}
+			}
+			return true
+		})
+		sort.Slice(subs, func(i, j int) bool { return subs[i].off > subs[j].off })
+		for _, sb := range subs {
+			if sb.off >= 0 && sb.off+sb.n <= len(t) {
+				t = t[:sb.off] + sb.to + t[sb.off+sb.n:]
+			}
+		}
+	}
 	t = strings.Join(strings.Fields(t), " ")
 	if len(t) > 60 {
 		t = t[:60]
